@@ -28,8 +28,10 @@ def gen_top(rng, pdb_safe=False):
             name = rng.choice(["LIG", "LG2", "XYZ"] if pdb_safe else ["LIG", "ALA", "HOH", "GLY", "NA"])
             atoms = []
             for ai in range(rng.randrange(1, 4)):
-                el = rng.choice(ELEMS if not pdb_safe else ["C", "N", "O", "S"])
-                an = el + str(ai + 1) if el != "VS" else "V%d" % ai
+                el = rng.choice(ELEMS if not pdb_safe else ["C", "N", "O", "S", "VS"])
+                # virtual sites carry the names force fields give them (TIP4P M-site, lone pairs, Drude / dummy particles, centres of mass):
+                # several of these begin with a chemical symbol, which a reader must not take for the element
+                an = el + str(ai + 1) if el != "VS" else rng.choice(["V%d" % ai, "MW", "OM", "COM", "D%d" % (ai + 1), "LP%d" % (ai + 1), "EPW", "CM", "DU"])
                 atoms.append((an, el, serial if used_serial else None))
                 serial += rng.choice([1, 1, 1, 3])
             seg = rng.choice(["", "", "SEGA", "B"])
@@ -257,6 +259,16 @@ def run(ctx):
                 t2 = build(md, d2)
                 if (top == t2) and hash(top) != hash(t2):
                     viol("eq-hash", "topologies differing only in resSeq/segment compare equal but hash differently: %s" % enc(d), dict(kind=kind, top=enc(d)))
+                # the same topology with its bonds added in another order
+                if len(d["bonds"]) >= 2:
+                    d3 = pycopy.deepcopy(d)
+                    d3["bonds"] = rng.sample(d3["bonds"], len(d3["bonds"]))
+                    t3 = build(md, d3)
+                    ctx.count("eq/hash with bonds added in another order")
+                    if top != t3:
+                        viol("eq|bond-order", "the same topology with its bonds added in another order does not compare equal: %s" % enc(d), dict(kind=kind, top=enc(d)))
+                    elif hash(top) != hash(t3):
+                        viol("eq-hash|bond-order", "topologies that differ only in the order their bonds were added compare equal but hash differently: %s" % enc(d), dict(kind=kind, top=enc(d)))
                 if m is not None:
                     me = "eq=true" in m
                     if me != e:
